@@ -123,10 +123,29 @@ def apply(obj, ev: dict):
     raise ValueError(op)
 
 
+def _too_big(x) -> bool:
+    if isinstance(x, bool):
+        return False
+    if isinstance(x, int):
+        return abs(x) > 2 ** 24
+    if isinstance(x, dict):
+        return any(_too_big(v) for v in x.values())
+    if isinstance(x, (list, tuple)):
+        return any(_too_big(v) for v in x)
+    return False
+
+
 def call(obj, ev):
     import bind
+    import c05
     try:
-        return project(apply(obj, ev))
+        before = c05.snapshot(obj)
+        r = project(apply(obj, ev))
+        if c05.snapshot(obj) != before:
+            return {"kind": "receiver-changed"}
+        if _too_big(r):       # far outside the value domain of the specification (TLC integers are 32 bit)
+            return {"kind": "inexact", "msg": "value beyond the modelled range"}
+        return r
     except bind.Inexact as e:
         return {"kind": "inexact", "msg": str(e)[:200]}
     except Exception as e:
@@ -168,8 +187,13 @@ def site_of(kind: str, ev: dict) -> str:
 
 def record(stim: dict) -> dict:
     obj = make(stim["init"], stim.get("pres", {}))
-    return {"init": stim["init"], "pres": stim.get("pres", {}),
-            "ev": [{"op": e["op"], "args": e["args"], "ret": call(obj, e)} for e in stim["ev"]]}
+    evs = []
+    for e in stim["ev"]:
+        ret = call(obj, e)
+        if ret.get("kind") == "receiver-changed":
+            obj = make(stim["init"], stim.get("pres", {}))
+        evs.append({"op": e["op"], "args": e["args"], "ret": ret})
+    return {"init": stim["init"], "pres": stim.get("pres", {}), "ev": evs}
 
 
 def replay(b: dict) -> dict:
@@ -178,6 +202,8 @@ def replay(b: dict) -> dict:
     divs, nontrivial = [], []
     for i, ev in enumerate(b["ev"]):
         ret = call(obj, ev)
+        if ret.get("kind") == "receiver-changed":
+            obj = make(b["init"], b.get("pres", {}))      # the remaining calls are made on a fresh receiver
         tr["ev"].append({"op": ev["op"], "args": ev["args"], "ret": ret})
         exp = ev["ret"]
         if exp["kind"] == "matrices" or (exp["kind"] == "scalar" and exp["val"] != 0) or \
